@@ -25,6 +25,11 @@ EXPLANATION = (
 NOT_DECIDED = "the numeric value of the rate (floating point rounding of elapsed * ppm / 10^6)"
 
 
+def _n(txt):
+    """the accessor `self.underlying()` returns `&self.roclock`: one spelling"""
+    return txt.replace("underlying(self)", "self.roclock")
+
+
 def run(ctx):
     rep = ctx.report
     prog = ctx.prog("default")
@@ -88,14 +93,14 @@ def run(ctx):
         for bi, t, c in mir.iter_calls(b):
             if t["sp"][4]:
                 continue
-            if c["name"] == "time_from_underlying" or "time_from_underlying(" in df.canon(pv.call_tree(t), b):
+            if c["name"] == "time_from_underlying" or "time_from_underlying(" in _n(df.canon(pv.call_tree(t), b)):
                 tfu.append((bi, t))
         shift_st = [s for s in sts if s["lhs"] == "self.shift" and not s["macro"]]
         freq_st = [s for s in sts if s["lhs"] == "self.freq_scale_ppm_diff" and not s["macro"]]
         problems = []
         # (a) anchor value is the underlying clock's reading
         for s in ls:
-            src = df.canon(s["tree"], b)
+            src = _n(df.canon(s["tree"], b))
             if src != "now(self.roclock)":
                 problems.append("last_sync is set to `%s`, not to the underlying clock's reading roclock.now()" % src)
         # (b) a reading through the old map precedes every overwrite of anchor and rate
@@ -104,7 +109,7 @@ def run(ctx):
                 call_bb == st["bb"] and False)
         pre = []
         for (cb, t) in tfu:
-            argt = "now(self.roclock)" if "time_from_underlying(self, now(self.roclock))" in df.canon(pv.call_tree(t), b) \
+            argt = "now(self.roclock)" if "time_from_underlying(self, now(self.roclock))" in _n(df.canon(pv.call_tree(t), b)) \
                 else "?"
             ok_order = all(cb == s["bb"] and True or g.dominates(cb, s["bb"]) for s in ls + freq_st)
             # same block: call terminates its block, so stores in the same block come before it
@@ -119,7 +124,7 @@ def run(ctx):
         if not shift_st:
             problems.append("shift is not rewritten when the anchor moves")
         for s in shift_st:
-            form = df.lin(s["tree"], b)
+            form = {_n(k): v for k, v in df.lin(s["tree"], b).items()}
             keys = set(form.keys())
             want = {"time_from_underlying(self, now(self.roclock))": 1, "now(self.roclock)": -1}
             rest = {k: v for k, v in form.items() if k not in want}
@@ -174,7 +179,7 @@ def run(ctx):
                           "time_from_underlying computes `%s`, expected roclock_time + shift + (roclock_time - last_sync) * "
                           "ppm / 10^6" % df.lin_str(form), where=tf.loc())
         nw = prog.one(name="now", self_name="OverlayClock", crate="statime-lib")
-        r = df.canon(df.Prov(nw).local_tree(0), nw)
+        r = _n(df.canon(df.Prov(nw).local_tree(0), nw))
         if r == "time_from_underlying(self, now(self.roclock))":
             rep.ok("OVL-5", nw.key, "now()", where=nw.loc())
         else:
